@@ -227,7 +227,7 @@ Proof.
   all: try (eapply only_weaken; [|apply only_verify]; intros c; destruct c; cbn; congruence).
 Qed.
 
-Definition fp_balance (c : cmd) : bool := match c with GetIssued | GetRedeemed => true | _ => false end.
+Definition fp_balance (c : cmd) : bool := match c with GetIssued | GetRedeemed | GetSeed => true | _ => false end.
 Lemma only_balance : only fp_balance total_balance.
 Proof. unfold total_balance. fp. Qed.
 
@@ -321,7 +321,10 @@ Proof.
 Qed.
 
 Lemma only_info cfg : only fp_balance (info_disabled cfg).
-Proof. unfold info_disabled. apply only_bind; [apply only_balance|]. intros b. destruct b; constructor. Qed.
+Proof.
+  unfold info_disabled. apply only_do; [reflexivity|]. intros sd. destruct sd; [|constructor].
+  apply only_bind; [apply only_balance|]. intros b. destruct b; constructor.
+Qed.
 
 (* the footprint of a whole request *)
 Definition fp_op (o : op) : cmd -> bool :=
